@@ -294,12 +294,28 @@ func applyHeaderEdit(e *HeaderEdit, F []byte, l *lib.Layout, disk *seam.SimDisk,
 		}
 	case "grease_insert":
 		g := &ref.Stanza{Type: "grease-" + e.S, Args: []string{"x"}, Body: core.Pattern(uint64(e.Off), e.Off%100)}
+		switch e.J % 4 {
+		case 1:
+			g.Type = e.S + "-grease" // how age implementations name the grease they add themselves
+		case 2:
+			g.Type, g.Args = []string{"grease", "stanza", "empty", "Q]-grease"}[e.Bit%4], nil
+			if e.Bit >= 4 {
+				g.Body = nil
+			}
+		}
 		if e.J%4 == 0 {
 			// attacker-made stanza of a native type addressed to somebody else
 			g = ref.WrapX25519(make([]byte, 16), core.Pattern(uint64(e.Off), 32), ref.X25519Public(core.Pattern(99, 32)))
 		}
 		pos := e.I % (n + 1)
-		h.Stanzas = append(h.Stanzas[:pos:pos], append([]*ref.Stanza{g}, h.Stanzas[pos:]...)...)
+		if e.I%3 == 0 {
+			pos = n // appended after the last stanza
+		}
+		ins := []*ref.Stanza{g}
+		if e.N%3 == 0 {
+			ins = append(ins, g.Clone())
+		}
+		h.Stanzas = append(h.Stanzas[:pos:pos], append(ins, h.Stanzas[pos:]...)...)
 	case "stanza_delete":
 		h.Stanzas = append(h.Stanzas[:i:i], h.Stanzas[i+1:]...)
 	case "stanza_dup":
